@@ -148,6 +148,19 @@ pub fn c15(a: &Args) {
                     continue;
                 }
                 let rab = if be == 0 { run_str(&tab) } else if be == 1 { run_parser(&tab, Backend::Buf, Api::PushMulti) } else { run_parser_opts(&tab, Backend::Str, Api::Iter, true) };
+                // (the option is part of the configuration: under keep_tags A and B alone are parsed with it too -- a %TAG line of
+                // an earlier document of B stays in force for its later documents, in B alone as in A + B)
+                let (rak, rbk);
+                let (ra, rb) = if be == 2 {
+                    rak = run_parser_opts(ta, Backend::Str, Api::Iter, true);
+                    rbk = run_parser_opts(tb, Backend::Str, Api::Iter, true);
+                    if rak.err.is_some() || rbk.err.is_some() || rak.panic.is_some() || rbk.panic.is_some() {
+                        continue;
+                    }
+                    (&rak, &rbk)
+                } else {
+                    (ra, rb)
+                };
                 let y = if rab.panic.is_some() { json!({"evs": [], "err": [{"msg": format!("PANIC {}", rab.panic.clone().unwrap()), "at": [0, 0, 0]}]}) } else { run_json(&rab) };
                 writeln!(w, "{}", json!({"k": "CONCAT", "ta": ta, "tb": tb, "via": (["pull/str", "push/buf", "pull/str/keep_tags"][be]), "a": run_json(ra), "b": run_json(rb), "ab": y})).unwrap();
                 nrec += 1;
@@ -191,6 +204,10 @@ pub fn c15(a: &Args) {
                     continue;
                 }
                 for (be, api, via) in [(Backend::Str, Api::Iter, "pull/str"), (Backend::Buf, Api::PushMulti, "push/buf")] {
+                    let (ra, rb) = (run_parser_opts(ta, be, api, keep), run_parser_opts(tb, be, api, keep));
+                    if ra.err.is_some() || rb.err.is_some() || ra.panic.is_some() || rb.panic.is_some() {
+                        continue;
+                    }
                     let rab = run_parser_opts(&tab, be, api, keep);
                     let y = if rab.panic.is_some() { json!({"evs": [], "err": [{"msg": format!("PANIC {}", rab.panic.clone().unwrap()), "at": [0, 0, 0]}]}) } else { run_json(&rab) };
                     writeln!(w, "{}", json!({"k": "CONCAT", "ta": ta, "tb": tb, "via": format!("{via}{}", if keep { "/keep_tags" } else { "" }), "a": run_json(&ra), "b": run_json(&rb), "ab": y})).unwrap();
